@@ -412,11 +412,11 @@ func C07(e *core.Env) {
 		good := header + "violation:\n  - g\nvalidations:\n" + c07Validation("g", map[string]any{"propertyConstraints": map[string]any{"ex.p / ex.q": map[string]any{"minCount": 1, "nested": leafPC}}}, "g {{ex.a}}")
 		good2 := header + "warning:\n  - h\nvalidations:\n" + c07Validation("h", map[string]any{"or": []any{leafPC, map[string]any{"propertyConstraints": map[string]any{"ex.r": map[string]any{"in": []any{"x"}}}}}}, "h")
 		refused := map[string]string{
-			"undeclared prefix in a path":       strings.Replace(good, "ex.p / ex.q", "acme.p / ex.q", 1),
-			"undeclared prefix in targetClass":  strings.Replace(good, "targetClass: ex.", "targetClass: acme.", 1),
-			"broken embedded Rego":              header + "violation:\n  - r\nvalidations:\n  r:\n    targetClass: ex.T\n    message: r\n    rego: |\n      this is ( not rego\n",
-			"not a path":                        strings.Replace(good, "ex.p / ex.q", "ex.p / / ex.q", 1),
-			"no YAML at all":                    "profile: [unclosed\n  - : :\n",
+			"undeclared prefix in a path":        strings.Replace(good, "ex.p / ex.q", "acme.p / ex.q", 1),
+			"undeclared prefix in targetClass":   strings.Replace(good, "targetClass: ex.", "targetClass: acme.", 1),
+			"broken embedded Rego":               header + "violation:\n  - r\nvalidations:\n  r:\n    targetClass: ex.T\n    message: r\n    rego: |\n      this is ( not rego\n",
+			"not a path":                         strings.Replace(good, "ex.p / ex.q", "ex.p / / ex.q", 1),
+			"no YAML at all":                     "profile: [unclosed\n  - : :\n",
 			"undeclared prefix in a placeholder": strings.Replace(good, "{{ex.a}}", "{{acme.a}}", 1),
 		}
 		rnames := []string{}
